@@ -27,6 +27,8 @@ import (
 	"math/rand"
 	"net"
 	"os"
+	"runtime"
+	"sort"
 	"strconv"
 	"strings"
 	"sync/atomic"
@@ -52,9 +54,10 @@ const (
 	vC13Silent
 	vC13NotAuth
 	vC13NXDomain
+	vC13BogusReferral // gated authorities only
 )
 
-var vC13BehaviourNames = []string{"healthy", "healthy-slow", "REFUSED", "SERVFAIL", "NOTIMP", "silent", "NOTAUTH", "NXDOMAIN"}
+var vC13BehaviourNames = []string{"healthy", "healthy-slow", "REFUSED", "SERVFAIL", "NOTIMP", "silent", "NOTAUTH", "NXDOMAIN", "bogus-referral"}
 
 type vC13Authority struct {
 	pc     net.PacketConn
@@ -247,6 +250,320 @@ func vC13Shed(zoneQuota bool, name string) vC13ShedObs {
 	return o
 }
 
+
+// ---- C. Gated fan-out: the SCHEDULE of Resolver.lookup is observed, not guessed.
+// (Optionally the client's context is cancelled at a barrier after some replies.)
+//
+// Every authority holds its reply until the driver releases it.  Between two releases the
+// driver waits for a barrier that does not depend on wall-clock: in ONE goroutine snapshot
+// (runtime.Stack, world stopped) the lookup goroutine is parked in its select and the number
+// of live queryServer goroutines equals (authorities whose query has arrived) - (replies
+// released).  queryServer goroutines live from `go r.queryServer` until lookup has received
+// their result, so equality holds exactly when every started server's query has reached its
+// authority AND every released reply has been consumed by lookup.  At a barrier the driver
+// notes how many servers have been started (fallback-timer ticks start servers at times the
+// driver does not control; a tick and a consumed non-final result commute in the model —
+// Proofs_Fanout.timer_commutes_with_result), picks the next reply to release among the
+// servers already asked, and goes on until Resolve returns.  Servers are numbered in the
+// order their first query arrived (= the order lookup started them; servers started between
+// two barriers are interchangeable), unstarted ones last.
+type vC13Gated struct {
+	pc     net.PacketConn
+	srv    *dns.Server
+	asked  atomic.Int64
+	seq    atomic.Int64 // 1-based order of the first query, 0 = never asked
+	behave int
+	gate   chan struct{}
+	quit   chan struct{}
+}
+
+func vC13StartGated(behave int, order *atomic.Int64) (*vC13Gated, error) {
+	pc, err := net.ListenPacket("udp", "127.0.0.1:0")
+	if err != nil {
+		return nil, err
+	}
+	a := &vC13Gated{pc: pc, behave: behave, gate: make(chan struct{}), quit: make(chan struct{})}
+	a.srv = &dns.Server{Net: "udp", PacketConn: pc, Handler: dns.HandlerFunc(func(w dns.ResponseWriter, req *dns.Msg) {
+		if len(req.Question) == 0 {
+			return
+		}
+		if a.seq.Load() == 0 {
+			a.seq.CompareAndSwap(0, order.Add(1))
+		}
+		a.asked.Add(1)
+		select {
+		case <-a.gate:
+		case <-a.quit:
+			return
+		}
+		q := req.Question[0]
+		reply := new(dns.Msg)
+		reply.SetReply(req)
+		switch a.behave {
+		case vC13Silent:
+			// "no usable reply" that does not cost a network timeout: a datagram shorter than a
+			// DNS header is a read error for the exchange (retried over UDP, then TCP, where
+			// nothing listens) — queryServer hands lookup an error
+			_, _ = w.Write([]byte{0, 0, 0})
+			return
+		case vC13Refused:
+			reply.Rcode = dns.RcodeRefused
+		case vC13ServFail:
+			reply.Rcode = dns.RcodeServerFailure
+		case vC13NotImp:
+			reply.Rcode = dns.RcodeNotImplemented
+		case vC13NotAuth:
+			reply.Rcode = dns.RcodeNotAuth
+		case vC13NXDomain:
+			reply.Rcode = dns.RcodeNameError
+			reply.Authoritative = true
+			zone := q.Name
+			if i, end := dns.NextLabel(q.Name, 0); !end {
+				zone = q.Name[i:]
+			}
+			reply.Ns = []dns.RR{&dns.SOA{Hdr: dns.RR_Header{Name: zone, Rrtype: dns.TypeSOA, Class: dns.ClassINET, Ttl: 60}, Ns: "ns." + zone, Mbox: "h." + zone, Serial: 1, Refresh: 60, Retry: 60, Expire: 60, Minttl: 60}}
+		case vC13BogusReferral:
+			// NOERROR, no answer, a delegation of the very zone that was asked (the question is
+			// www.<zone>): it does not progress below the zone — lookup files it under configErrors
+			zone := q.Name
+			if i, end := dns.NextLabel(q.Name, 0); !end {
+				zone = q.Name[i:]
+			}
+			reply.Ns = []dns.RR{&dns.NS{Hdr: dns.RR_Header{Name: zone, Rrtype: dns.TypeNS, Class: dns.ClassINET, Ttl: 60}, Ns: "ns1." + zone}}
+			reply.Extra = []dns.RR{&dns.A{Hdr: dns.RR_Header{Name: "ns1." + zone, Rrtype: dns.TypeA, Class: dns.ClassINET, Ttl: 60}, A: net.IPv4(198, 51, 100, 7)}}
+		default:
+			reply.Authoritative = true
+			reply.Answer = []dns.RR{&dns.A{Hdr: dns.RR_Header{Name: q.Name, Rrtype: dns.TypeA, Class: dns.ClassINET, Ttl: 60}, A: net.IPv4(192, 0, 2, 44)}}
+		}
+		_ = w.WriteMsg(reply)
+	})}
+	started := make(chan struct{})
+	a.srv.NotifyStartedFunc = func() { close(started) }
+	go func() { _ = a.srv.ActivateAndServe() }()
+	select {
+	case <-started:
+	case <-time.After(2 * time.Second):
+		pc.Close()
+		return nil, fmt.Errorf("authority did not start")
+	}
+	return a, nil
+}
+
+// one snapshot of all goroutines: live queryServer goroutines, and whether a goroutine inside
+// Resolver.lookup is parked in a select
+func vC13Goroutines() (queryServers int, lookupParked bool) {
+	buf := make([]byte, 1<<20)
+	for {
+		n := runtime.Stack(buf, true)
+		if n < len(buf) {
+			buf = buf[:n]
+			break
+		}
+		buf = make([]byte, 2*len(buf))
+	}
+	for _, g := range strings.Split(string(buf), "\n\n") {
+		if strings.Contains(g, "resolver.(*Resolver).queryServer(") {
+			queryServers++
+		}
+		if strings.Contains(g, "resolver.(*Resolver).lookup(") {
+			head, _, _ := strings.Cut(g, "\n")
+			if strings.Contains(head, "[select") {
+				lookupParked = true
+			}
+		}
+	}
+	return
+}
+
+type vC13GatedObs struct {
+	order           []int    // behaviours in start order (unstarted last)
+	events          [][2]int // (servers started when the reply was released, index of the released server)
+	records, clears int
+	rcode           int
+	err             string
+	startedAtEnd    int
+	cancelled       bool // the client's context was cancelled at a barrier, before Resolve returned
+	infra           bool
+	note            string
+}
+
+func vC13GatedFanout(zone string, behaviours []int, prio []int, waitAll bool, cancelAfter int) vC13GatedObs {
+	deadline := time.Now().Add(40 * time.Second)
+	// stragglers of the previous case have been cancelled; let them leave
+	for {
+		q, _ := vC13Goroutines()
+		if q == 0 {
+			break
+		}
+		if time.Now().After(deadline) {
+			return vC13GatedObs{infra: true, note: "stragglers of an earlier lookup did not leave"}
+		}
+		time.Sleep(2 * time.Millisecond)
+	}
+	var order atomic.Int64
+	var auths []*vC13Gated
+	defer func() {
+		for _, a := range auths {
+			close(a.quit)
+			_ = a.srv.Shutdown()
+			_ = a.pc.Close()
+		}
+	}()
+	var list []*authority.Server
+	for _, b := range behaviours {
+		a, err := vC13StartGated(b, &order)
+		if err != nil {
+			return vC13GatedObs{infra: true, note: err.Error()}
+		}
+		auths = append(auths, a)
+		list = append(list, authority.NewServer(a.pc.LocalAddr().String(), authority.IPv4))
+	}
+	servers := &authority.Servers{Zone: zone, List: list}
+	r := vC13LabResolver(servers)
+	// no exchange may run into its socket deadline while its reply is held
+	r.netTimeout = 60 * time.Second
+	r.cfg.Timeout = config.Duration{Duration: 60 * time.Second}
+	st := &vC13ZoneStore{}
+	var ms middleware.Store = st
+	r.store.Store(&ms)
+	req := new(dns.Msg)
+	req.SetQuestion("www."+strings.TrimPrefix(zone, "."), dns.TypeA)
+	ctx, cancel := context.WithTimeout(context.Background(), 90*time.Second)
+	defer cancel()
+	type result struct {
+		resp *dns.Msg
+		err  error
+	}
+	done := make(chan result, 1)
+	go func() {
+		resp, err := r.Resolve(ctx, req, servers, false, 5, 0, true, nil)
+		done <- result{resp, err}
+	}()
+	asked := func() int {
+		c := 0
+		for _, a := range auths {
+			if a.asked.Load() > 0 {
+				c++
+			}
+		}
+		return c
+	}
+	released := make([]bool, len(auths))
+	nReleased := 0
+	type ev struct{ started, auth int }
+	var evs []ev
+	var fin *result
+	obs := vC13GatedObs{}
+	// barrier: quiescent (returns the number of servers started), or Resolve returned
+	barrier := func() (int, bool) {
+		for {
+			select {
+			case res := <-done:
+				fin = &res
+				return 0, true
+			default:
+			}
+			a1 := asked()
+			q, parked := vC13Goroutines()
+			a2 := asked()
+			if parked && a1 == a2 && q == a1-nReleased {
+				return a1, false
+			}
+			if time.Now().After(deadline) {
+				obs.infra = true
+				obs.note = fmt.Sprintf("no barrier: asked=%d live=%d released=%d parked=%v", a2, q, nReleased, parked)
+				return 0, true
+			}
+			time.Sleep(time.Millisecond)
+		}
+	}
+loop:
+	for {
+		started, ended := barrier()
+		if ended {
+			break
+		}
+		if waitAll && started < len(auths) {
+			time.Sleep(5 * time.Millisecond) // timer ticks start the others
+			continue
+		}
+		if cancelAfter >= 0 && nReleased == cancelAfter {
+			// the client goes away while the lookup waits (parked, nothing of what was released
+			// is still on its way): request-local, nothing may be published
+			obs.cancelled = true
+			cancel()
+			select {
+			case res := <-done:
+				fin = &res
+			case <-time.After(time.Until(deadline)):
+				obs.note = "the context was cancelled but Resolve did not return"
+			}
+			break loop
+		}
+		next := -1
+		for _, i := range prio {
+			if !released[i] && auths[i].asked.Load() > 0 {
+				next = i
+				break
+			}
+		}
+		if next < 0 {
+			if started == len(auths) {
+				// every reply released and consumed, nothing left to start: lookup must end now
+				select {
+				case res := <-done:
+					fin = &res
+				case <-time.After(time.Until(deadline)):
+					obs.note = "every reply was released and consumed but Resolve did not return"
+				}
+				break loop
+			}
+			time.Sleep(5 * time.Millisecond) // a timer tick will start the next server
+			continue
+		}
+		evs = append(evs, ev{started, next})
+		released[next] = true
+		nReleased++
+		close(auths[next].gate)
+	}
+	// start order
+	idx := make([]int, len(auths))
+	for i := range idx {
+		idx[i] = i
+	}
+	seqOf := func(i int) int64 {
+		if s := auths[i].seq.Load(); s > 0 {
+			return s
+		}
+		return 1 << 40
+	}
+	sort.SliceStable(idx, func(a, b int) bool { return seqOf(idx[a]) < seqOf(idx[b]) })
+	pos := make([]int, len(auths))
+	for p, i := range idx {
+		pos[i] = p
+		obs.order = append(obs.order, behaviours[i])
+	}
+	for _, e := range evs {
+		obs.events = append(obs.events, [2]int{e.started, pos[e.auth]})
+	}
+	obs.startedAtEnd = asked()
+	obs.records, obs.clears, obs.rcode = len(st.recorded), len(st.cleared), 999
+	if fin == nil {
+		if !obs.infra && obs.note == "" {
+			obs.note = "Resolve did not return"
+		}
+		obs.rcode = 998
+		return obs
+	}
+	if fin.err != nil {
+		obs.err = fin.err.Error()
+	}
+	if fin.resp != nil && fin.err == nil {
+		obs.rcode = fin.resp.Rcode
+	}
+	return obs
+}
+
 type vC13LabCorpusCase struct {
 	Zone    string `json:"zone"`
 	Servers []int  `json:"servers"`
@@ -274,8 +591,55 @@ func vC13LabCorpus(t *testing.T) []vC13LabCorpusCase {
 			t.Fatalf("corpus lab.json: empty zone or server list")
 		}
 		for _, s := range c.Servers {
-			if s < 0 || s >= len(vC13BehaviourNames) {
+			if s < 0 || s >= len(vC13BehaviourNames) || s == vC13BogusReferral {
 				t.Fatalf("corpus lab.json: unknown behaviour %d", s)
+			}
+		}
+	}
+	return out
+}
+
+type vC13GatedCorpusCase struct {
+	Zone        string `json:"zone"`
+	Servers     []int  `json:"servers"`
+	Prio        []int  `json:"prio"`
+	WaitAll     bool   `json:"wait_all"`
+	CancelAfter int    `json:"cancel_after"`
+}
+
+// gated.json: [{"zone", "servers": [codes], "prio": [release order: a permutation of the server
+// positions], "wait_all": release only after every server was started, "cancel_after": -1 or the
+// number of replies after which the client cancels}]
+func vC13GatedCorpus(t *testing.T) []vC13GatedCorpusCase {
+	dir := os.Getenv("VERIF_CORPUS")
+	if dir == "" {
+		return nil
+	}
+	b, err := os.ReadFile(dir + "/gated.json")
+	if os.IsNotExist(err) {
+		return nil
+	}
+	if err != nil {
+		t.Fatalf("corpus: %v", err)
+	}
+	var out []vC13GatedCorpusCase
+	if err := json.Unmarshal(b, &out); err != nil {
+		t.Fatalf("corpus gated.json: %v", err)
+	}
+	for _, c := range out {
+		if c.Zone == "" || len(c.Servers) == 0 || len(c.Prio) != len(c.Servers) {
+			t.Fatalf("corpus gated.json: empty zone / server list, or prio is not a permutation")
+		}
+		seen := map[int]bool{}
+		for _, p := range c.Prio {
+			if p < 0 || p >= len(c.Servers) || seen[p] {
+				t.Fatalf("corpus gated.json: prio is not a permutation")
+			}
+			seen[p] = true
+		}
+		for _, s := range c.Servers {
+			if s < 0 || s >= len(vC13BehaviourNames) || s == vC13HealthySlow {
+				t.Fatalf("corpus gated.json: behaviour %d not available for a gated authority", s)
 			}
 		}
 	}
@@ -433,6 +797,134 @@ func TestVerifC13Lab(t *testing.T) {
 		}
 		r.Shuffle(len(bs), func(a, b int) { bs[a], bs[b] = bs[b], bs[a] })
 		runFanout(bs, zones[i%len(zones)], "")
+	}
+	// C. Gated fan-outs (see vC13GatedFanout): the schedule is observed.  1..6 authorities; every
+	// failure rcode, NXDOMAIN, a reply that is a read error, healthy; replies released in a random
+	// order or with the usable ones last / first; released as soon as two servers are out or only
+	// after the fallback timer has started every server; every zone depth.
+	runGated := func(bs []int, zone string, prio []int, waitAll bool, cancelAfter int, kindTag string) {
+		obs := vC13GatedFanout(zone, bs, prio, waitAll, cancelAfter)
+		var bc, bn, ev []string
+		for _, b := range obs.order {
+			bc = append(bc, strconv.Itoa(b))
+			bn = append(bn, vC13BehaviourNames[b])
+		}
+		heard := map[int]bool{}
+		for _, e := range obs.events {
+			ev = append(ev, fmt.Sprintf("(%d,%d)", e[0], e[1]))
+			heard[e[1]] = true
+		}
+		kind := "lab-gated-all-fail"
+		for _, b := range bs {
+			if b == vC13NXDomain {
+				kind = "lab-gated-nxdomain"
+			}
+		}
+		for _, b := range bs {
+			if b == vC13Healthy {
+				kind = "lab-gated-healthy"
+			}
+		}
+		if obs.cancelled {
+			kind = "lab-gated-cancelled"
+		}
+		if kindTag != "" {
+			kind = kindTag
+		}
+		goFail := ""
+		if !obs.infra && obs.note != "" {
+			goFail = obs.note
+		}
+		emit(map[string]any{
+			"k":            kind,
+			"coq":          fmt.Sprintf("CaseLabSched %d [%s]%%N [%s]%%nat %v %d %d %d", dns.CountLabel(zone), strings.Join(bc, ";"), strings.Join(ev, ";"), obs.cancelled, obs.records, obs.clears, obs.rcode),
+			"nontrivial":   len(bs) > 1,
+			"inconclusive": obs.infra,
+			"go_fail":      goFail,
+			"desc": map[string]any{"zone": zone, "servers_in_start_order": bn, "released(started_then,server)": ev, "wait_for_all_started": waitAll, "client_cancelled_then": obs.cancelled,
+				"zone_failures_published": obs.records, "cleared": obs.clears, "rcode": obs.rcode, "err": obs.err, "started_at_end": obs.startedAtEnd, "note": obs.note},
+		})
+	}
+	// fixed inputs first (VERIF_CORPUS/gated.json)
+	for _, c := range vC13GatedCorpus(t) {
+		runGated(c.Servers, c.Zone, c.Prio, c.WaitAll, c.CancelAfter, "lab-gated-corpus")
+	}
+	gatedRounds := 14
+	if n >= 100 {
+		gatedRounds = 150
+	}
+	for i := 0; i < gatedRounds; i++ {
+		k := 1 + r.Intn(6)
+		if i%7 >= 4 {
+			k = 4 + r.Intn(3)
+		}
+		bs := make([]int, 0, k)
+		for j := 0; j < k; j++ {
+			bs = append(bs, failing[r.Intn(len(failing))])
+		}
+		if r.Intn(3) == 0 {
+			bs[r.Intn(k)] = vC13Silent
+		}
+		if r.Intn(4) == 0 {
+			bs[r.Intn(k)] = vC13BogusReferral
+		}
+		usable := map[int]bool{}
+		mode := r.Intn(3) // order of release: random / usable replies last / usable replies first
+		switch i % 7 {
+		case 0: // every server fails; sometimes with bogus referrals / read errors only (no response error at all)
+			if r.Intn(3) == 0 {
+				for j := range bs {
+					bs[j] = []int{vC13BogusReferral, vC13BogusReferral, vC13Silent}[r.Intn(3)]
+				}
+			}
+		case 1: // one healthy server
+			j := r.Intn(k)
+			bs[j] = vC13Healthy
+			usable[j] = true
+		case 2: // NXDOMAIN from one or two servers
+			for c := 1 + r.Intn(2); c > 0; c-- {
+				j := r.Intn(k)
+				bs[j] = vC13NXDomain
+				usable[j] = true
+			}
+		case 3: // both
+			j := r.Intn(k)
+			bs[j] = vC13NXDomain
+			usable[j] = true
+			j = r.Intn(k)
+			bs[j] = vC13Healthy
+			usable[j] = true
+		case 4, 5: // a lame majority: every server but one says the same thing, the odd one (healthy, or
+			// NXDOMAIN) is heard last — however many equal verdicts are in, the zone has not failed
+			rc := failing[r.Intn(len(failing))]
+			for j := range bs {
+				bs[j] = rc
+			}
+			j := r.Intn(k)
+			bs[j] = []int{vC13Healthy, vC13NXDomain}[i%7-4]
+			usable[j] = true
+			mode = 1
+		case 6: // all lame with one rcode but one other failure, heard at a random place
+			rc := failing[r.Intn(len(failing))]
+			for j := range bs {
+				bs[j] = rc
+			}
+			bs[r.Intn(k)] = failing[r.Intn(len(failing))]
+		}
+		prio := r.Perm(k)
+		if mode > 0 {
+			sort.SliceStable(prio, func(a, b int) bool {
+				if mode == 1 {
+					return !usable[prio[a]] && usable[prio[b]]
+				}
+				return usable[prio[a]] && !usable[prio[b]]
+			})
+		}
+		cancelAfter := -1
+		if i%5 == 4 { // the client cancels after 0..k-1 replies (all of them failures when the usable ones come last)
+			cancelAfter = r.Intn(k)
+		}
+		runGated(bs, zones[i%len(zones)], prio, r.Intn(2) == 0, cancelAfter, "")
 	}
 	for i := 0; i < n; i++ {
 		k := 1 + r.Intn(6)
